@@ -62,10 +62,11 @@ def sigma():
         add("NAME", kw)
     # literals the code compares token strings against: keep those the tokenizer emits as one token
     for lit in sorted(_code_literals(rp)):
-        try:
-            toks = [t for t in T.generate_tokens(lit) if t.type.name not in ("NEWLINE", "ENDMARKER", "NL")]
-        except Exception:  # noqa: BLE001
+        from .oracles import safe_tokens
+        toks = safe_tokens(rp.real, lit, 1.0)
+        if toks is None:
             continue
+        toks = [t for t in toks if t.type.name not in ("NEWLINE", "ENDMARKER", "NL")]
         if len(toks) == 1 and toks[0].string == lit and toks[0].type.name in ("NAME", "OP"):
             if toks[0].type.name == "NAME" and not (lit in ("print", "exec", "s", "r", "a", "_") or lit in P.KEYWORDS):
                 continue  # attribute names etc. behave like any other NAME
@@ -671,9 +672,9 @@ def rows_from_text(text):
     inside brackets and without tokens spanning lines; None when the text does not have that shape"""
     X = repo().real
     T = X.tokenize.Token
-    try:
-        toks = list(X.tokenize.generate_tokens(text))
-    except Exception:  # noqa: BLE001
+    from .oracles import safe_tokens
+    toks = safe_tokens(X, text, 2.0)
+    if toks is None:
         return None
     rows, indents = [], []
     cur = []
